@@ -36,7 +36,8 @@
                        code itself since ef188d6 / 1a8f8bf).  The other bits mark what the proofs do not
                        cover yet: 2: no walk up through, and no descent of processNode / FindLast... into,
                        a balancing capture; 4: no walk up out of an atomic group the walk itself descended
-                       into (a successor of the loop); 8: FindLastExpressionInLoopForAutoAtomic finds nothing.
+                       into (a successor of the loop); 8: FindLastExpressionInLoopForAutoAtomic finds nothing
+                       when eliminateEndingBacktracking asks (processNode's use is covered).
      lite           the mandatory reducers are replaced by the identity wherever a gated branch re-reduces
                        a node (the proofs are about the lite pass; [lite = full] is a per-tree check).
    Oracles: cat_in (Model/CharClass.v), is_word_char = syntax.IsWordChar, is_ecma_word_char =
@@ -139,7 +140,7 @@ Definition fo_arity_ok (t : Z) (nk : nat) : bool :=
   else if (t =? 26) || (t =? 27) || (t =? 28) || (t =? 30) || (t =? 31) || (t =? 32) then Nat.eqb nk 1
   else if t =? 33 then Nat.eqb nk 2
   else if t =? 34 then Nat.eqb nk 3
-  else (t =? 24) || (t =? 25).
+  else ((t =? 24) || (t =? 25)) && Nat.leb 2 nk.
 
 Fixpoint cls_no_bitmap (c : cls) : bool :=
   match c with
@@ -346,8 +347,8 @@ Fixpoint fo_body_last (strict : Z) (body : rnode) (k : rnode -> rnode -> res (op
         end
       else Ok None
   end.
-Definition fo_loop_last (strict : Z) (lp : rnode) (k : rnode -> rnode -> res (option rnode)) : res (option rnode) :=
-  if Z.testbit strict 3 then Ok None else
+Definition fo_loop_last (off : bool) (strict : Z) (lp : rnode) (k : rnode -> rnode -> res (option rnode)) : res (option rnode) :=
+  if off then Ok None else
   match n_kids lp with
   | [] => Crash 45
   | b :: bs => do r <- fo_body_last strict b k ;
@@ -383,7 +384,7 @@ Fixpoint fo_pn (fuel : nat) (strict : Z) (node sub : rnode) (ctx : list frame) :
       | lastk :: rpre => do l' <- fo_pn f strict lastk sub ctx ; Ok (set_kids node (rev (l' :: rpre)))
       end
     else if t =? T_Loop then                                              (* 421-427 *)
-      do r <- fo_loop_last strict node (fun first lastc =>
+      do r <- fo_loop_last false strict node (fun first lastc =>
                 do b <- fo_cbma f strict lastc first [] false false false ;
                 if b then (do l' <- leaf lastc ; Ok (Some l')) else Ok None) ;
       match r with Some node' => Ok node' | None => Ok node end
@@ -574,7 +575,7 @@ Fixpoint fo_ee (fuel : nat) (g : Z) (strict : Z) (lite : bool) (par_atomic : boo
       let as_loop (nd : rnode) : res rnode :=
         if n_n nd =? 1 then first_kid false nd
         else
-          do r <- fo_loop_last strict nd (fun first lastc =>
+          do r <- fo_loop_last (Z.testbit strict 3) strict nd (fun first lastc =>
                     do b <- fo_cbma f strict lastc first [] false false false ;
                     if b then (do l' <- fo_ee f g strict lite false lastc ; Ok (Some l')) else Ok None) ;
           match r with Some nd' => Ok nd' | None => Ok nd end in
